@@ -317,6 +317,20 @@ func c11Run(c *core.Ctx) {
 					try(v[:cut], "prefix of a valid program with semicolons dropped")
 				}
 			}
+			// one token replaced by each lexeme of a class alphabet
+			if len(texts) <= 24 {
+				for i := range texts {
+					for _, sub := range c16Subst {
+						if sub == texts[i] {
+							continue
+						}
+						v := append([]string{}, texts...)
+						v[i] = sub
+						c.Inc("substituted_program_inputs")
+						try(v, "valid program with one token replaced")
+					}
+				}
+			}
 		}
 		gen.Programs(level, func(prog []*gen.Node, name string) {
 			if !c.Next() || c.Tick() {
@@ -410,7 +424,7 @@ func c11Replay(pl json.RawMessage) (string, []core.Violation) {
 func init() {
 	core.Register(&core.PropSpec{
 		ID: "C11", Level: "exploration",
-		Rule:     "ALL token sequences of length 0..n (n=4 quick, 5 thorough) over the 45-lexeme alphabet (identifiers, literals, every keyword, operator and delimiter), valid or not, space-separated (and line-feed-separated up to n-1; at n=5 in the modes strict and tolerant+smart only), plus all byte strings <=4 over the 26-byte lexer alphabet; each parsed in the 4 mode combinations; oracle: no panic, err<=>Errors(), no nil/typed-nil entry in any statement list (reflective walk), every error range equals the range of a token of a fresh lexer run, and for error-free results all mandatory children present and every compiler configuration + debug.ToString run without panic. non-trivial = input accepted without error in at least one mode (reaches tree + compiler checks) — rejected inputs are counted separately Added: all sequences <= 3 (4 thorough) over a second 20-lexeme alphabet with range-edge numeric literals and a long escape; the scale family intact and truncated at 3 points; programs being typed: every token prefix and every single-token deletion of every program of the statement families and nesting chains, and every prefix of those programs with all / each single semicolon dropped (the inputs tolerant mode exists for), in two layouts and all modes; all sequences of length 5..6 (7 thorough) over a 13-lexeme statement-keyword class alphabet in the modes strict and tolerant+smart.",
+		Rule:     "ALL token sequences of length 0..n (n=4 quick, 5 thorough) over the 45-lexeme alphabet (identifiers, literals, every keyword, operator and delimiter), valid or not, space-separated (and line-feed-separated up to n-1; at n=5 in the modes strict and tolerant+smart only), plus all byte strings <=4 over the 26-byte lexer alphabet; each parsed in the 4 mode combinations; oracle: no panic, err<=>Errors(), no nil/typed-nil entry in any statement list (reflective walk), every error range equals the range of a token of a fresh lexer run, and for error-free results all mandatory children present and every compiler configuration + debug.ToString run without panic. non-trivial = input accepted without error in at least one mode (reaches tree + compiler checks) — rejected inputs are counted separately Added: all sequences <= 3 (4 thorough) over a second 20-lexeme alphabet with range-edge numeric literals and a long escape; the scale family intact and truncated at 3 points; programs being typed: every token prefix and every single-token deletion of every program of the statement families and nesting chains, and every prefix of those programs with all / each single semicolon dropped (the inputs tolerant mode exists for), and every single-token substitution by each of 22 class lexemes, in two layouts and all modes; all sequences of length 5..6 (7 thorough) over a 13-lexeme statement-keyword class alphabet in the modes strict and tolerant+smart.",
 		Assume:   []string{"stack exhaustion on very deep nesting is out of scope (bounded length)"},
 		QuickSec: 300, ThorSec: 2400, Run: c11Run, Replay: c11Replay,
 		Evals: "inputs", Nontriv: "error_free_inputs",
